@@ -42,6 +42,7 @@ def run_cases(prop, tier, seed, cases, devices, matcher=None, keyf=None, rule=""
     """Executes cases, has TLC judge them, files rejections as violations / known findings."""
     scratch = Scratch(prop)
     v = Verdict(prop, tier, seed, "model_checking")
+    matcher = matcher or kf_match
     try:
         jobs = [{"k": "str", "id": i, "src": c.src, "nohex": not c.mat} for i, c in enumerate(cases)]
         res = run_jobs(jobs)
@@ -101,6 +102,39 @@ def _count(it):
     for x in it:
         c[x] = c.get(x, 0) + 1
     return c
+
+
+def ast_syms(a):
+    t = a.get("t")
+    if t == "sym":
+        return {a["n"]}
+    out = set()
+    for k in ("l", "r", "e"):
+        if isinstance(a.get(k), dict):
+            out |= ast_syms(a[k])
+    return out
+
+
+def has_unevaluable_size(prog):
+    """Structural signature of the known finding 'byte-org-unevaluable': a .byte or .org line whose operand
+    refers to a name that is not an .equ defined on an earlier line (directly or through macro bodies)."""
+    known = set()
+    for l in prog:
+        if l["k"] == "equ":
+            known.add(l["n"])
+        if l["k"] in ("byte", "org") and (ast_syms(l["e"]) - known):
+            return True
+    return False
+
+
+def kf_match(k, case):
+    kind = k.get("match", {}).get("kind")
+    if kind == "byte-org-unevaluable":
+        return has_unevaluable_size(case["prog"]) and case["observed"]["r"] == "ok"
+    if kind == "org-zero-after-content":
+        return (case["observed"]["r"] == "ok" and not case["expected"].get("ok")
+                and any(l["k"] == "org" and l["e"] == {"t": "num", "v": 0} for l in case["prog"]))
+    return False
 
 
 def default_key(x):
@@ -260,6 +294,27 @@ def check_c02(prop, tier, seed, devices):
     devs = C02_DEVS
     cases = gen_layout_exhaustive(3 if tier == "quick" else 4, ["", "ATmega48", "ATtiny20"])
     cases += gen_layout_random(rnd, 1500 if tier == "quick" else 40000, devs)
+    # sizes and origins written as expressions: over literals and earlier .equ (honoured), and over names that
+    # cannot be evaluated when the directive is read (known finding 'byte-org-unevaluable')
+    for e, tag in ((binop("+", lit(1), lit(1)), "size-expr"), (sym("k1"), "size-expr"), (binop("*", sym("k1"), lit(2)), "size-expr"),
+                   (sym("v1"), "size-unevaluable"), (sym("late"), "size-unevaluable"), (binop("+", sym("l0"), lit(4)), "size-unevaluable")):
+        for segname in ("data", "eeprom"):
+            prog = [equ("k1", 3), setv("v1", 2), label("l0"), seg(segname), byte(copy.deepcopy(e), lab="a"), byte(1, lab="b"), equ("late", 2)]
+            observe_labels(prog, ["a", "b"])
+            cases.append(Case(prog, tag=tag))
+        prog = [equ("k1", 3), setv("v1", 2), instr("nop", lab="l0"), org(binop("+", copy.deepcopy(e), lit(4))), instr("ret", lab="a"), equ("late", 2)]
+        observe_labels(prog, ["a"])
+        cases.append(Case(prog, tag=tag.replace("size", "org")))
+    # exact origins: at the counter (legal), below it and back to zero after content (errors)
+    for k in (1, 2, 5):
+        for target, tag in ((k, "org-at-counter"), (k - 1, "org-below-counter"), (0, "org-zero-after-content"), (k + 1, "org-forward")):
+            for segname in ("code", "eeprom", "data"):
+                unit = instr("nop") if segname == "code" else data(1, E(7)) if segname == "eeprom" else byte(1)
+                base = 0x60 if segname == "data" else 0
+                prog = [seg(segname)] + [copy.deepcopy(unit) for _ in range(k)] + [org(base + target), copy.deepcopy(unit)]
+                prog[-1]["lab"] = "here"
+                observe_labels(prog, ["here"])
+                cases.append(Case(prog, tag=tag))
     return run_cases(prop, tier, seed, cases, devices, keyf=default_key,
                      rule="all sequences up to length 3 (quick) / 4 (thorough) over a 14-symbol layout alphabet x 3 device classes, "
                           "plus seeded random programs of 5-60 items over 5 devices; each with a .dw table of its labels; "
@@ -827,3 +882,125 @@ def partfile_events(devices):
 
 
 CHECKS["C12"] = check_c12
+
+
+# ========================================================================================
+# C09 -- macros
+
+LEVEL_OPS = ["*", "+", "<<", "<", "==", "&", "^", "|", "&&", "||", "-", "/"]
+
+
+def macro_bodies():
+    """(name, parameter kinds, body lines).  Parameter kinds: r register, e expression, x index form."""
+    out = []
+    out.append(("incr", "r", [instr("inc", ARG(0))]))
+    out.append(("twice", "r", [instr("mov", ARG(0), ARG(0)), instr("dec", ARG(0))]))
+    for op in LEVEL_OPS:
+        out.append(("calc", "re", [instr("ldi", ARG(0), E(binop("&", par(binop(op, arg(1), lit(2))), lit(255))))]))
+        out.append(("calc", "re", [instr("ldi", ARG(0), E(binop("&", par(binop(op, lit(9), arg(1))), lit(255))))]))
+    out.append(("bytes", "e", [data(1, ARG(0), E(binop("+", arg(0), lit(1))))]))
+    out.append(("words", "ee", [data(2, E(binop("*", arg(0), arg(1))), ARG(1))]))
+    out.append(("load", "x", [instr("ldd", R(0), ARG(0)), instr("std", ARG(0), R(1))]))
+    out.append(("loadx", "x", [instr("ld", R(2), ARG(0))]))
+    out.append(("cond", "e", [line("if", e=binop(">", arg(0), lit(3))), instr("ldi", R(16), E(1)), line("else"), instr("ldi", R(16), E(2)),
+                              line("endif"), instr("nop")]))
+    out.append(("condel", "ee", [line("if", e=binop("==", arg(0), lit(1))), data(1, E(0x11)), line("elif", e=binop("==", arg(1), lit(1))), data(1, E(0x22)),
+                                 line("else"), data(1, E(0x33)), line("endif")]))
+    out.append(("outer", "re", [call("calc", ARG(0), E(binop("+", arg(1), lit(1)))), call("incr", ARG(0))]))
+    out.append(("swapargs", "er", [call("calc", ARG(1), ARG(0))]))
+    out.append(("ramvar", "e", [instr("ldi", R(16), E(1)), seg("data"), byte(arg(0)), seg("code"), instr("ldi", R(17), E(2))]))
+    out.append(("eevar", "e", [instr("ldi", R(18), E(3)), seg("eeprom"), data(1, ARG(0)), seg("code"), instr("ldi", R(19), E(4))]))
+    out.append(("noargs", "", [instr("nop"), instr("ret")]))
+    out.append(("third", "eee", [data(1, ARG(2), ARG(0))]))
+    return out
+
+
+def arg_values(kind, rnd):
+    if kind == "r":
+        return [R(rnd.choice([16, 17, 24, 31]))]
+    if kind == "x":
+        return [IX("Y", "disp", lit(rnd.randrange(0, 64))), IX("Z", "disp", binop("+", lit(1), lit(2)))]
+    return [E(lit(rnd.randrange(0, 9))), E(binop("+", lit(1), lit(2))), E(par(binop("+", lit(1), lit(2)))), E(binop("*", lit(2), lit(3))),
+            E(un("-", lit(1))), E(binop("|", binop("<<", lit(1), lit(2)), lit(1))), E(sym("kk")), E(binop("-", lit(7), lit(2))),
+            E(binop("==", lit(1), lit(1))), E(un("!", lit(0)))]
+
+
+def mixed(s):
+    return "".join(c.upper() if i % 2 == 0 else c for i, c in enumerate(s))
+
+
+def check_c09(prop, tier, seed, devices):
+    rnd = random.Random(seed)
+    bodies = macro_bodies()
+    by_name = {}
+    for n, k, b in bodies:
+        by_name.setdefault(n, []).append((k, b))
+    cases = []
+    reps = 30 if tier == "quick" else 400
+
+    def definition(name, body, defcase):
+        spn = name if defcase == "lower" else mixed(name) if defcase == "mixed" else name.upper()
+        return [line("macro", n=name, spn=spn)] + copy.deepcopy(body) + [line("endm", form=rnd.choice([".endm", ".endmacro"]))]
+
+    for name, kinds, body in bodies:
+        deps = []
+        for l in body:
+            if l["k"] == "call":
+                k2, b2 = by_name[l["n"]][0]
+                deps.append((l["n"], b2))
+                for l2 in b2:
+                    if l2["k"] == "call":
+                        k3, b3 = by_name[l2["n"]][0]
+                        deps.append((l2["n"], b3))
+        for rep in range(reps):
+            defcase = rnd.choice(["lower", "lower", "mixed", "upper"])
+            callcase = rnd.choice(["lower", "upper", "mixed"])
+            argsets = [[rnd.choice(arg_values(k, rnd)) for k in kinds] for _ in range(rnd.randrange(1, 4))]
+            calls = []
+            for a in argsets:
+                spn = name if callcase == "lower" else name.upper() if callcase == "upper" else mixed(name)
+                c = call(name, *copy.deepcopy(a))
+                c["spn"] = spn
+                calls.append(c)
+            defs = []
+            seen = set()
+            for dn, db in [(name, body)] + deps:
+                if dn not in seen:
+                    seen.add(dn)
+                    defs += definition(dn, db, defcase if dn == name else "lower")
+            placement = rnd.choice(["after-def", "before-def", "both", "after-org", "after-seg"])
+            head = [equ("kk", 5)]
+            if placement == "after-def":
+                prog = head + defs + [instr("nop")] + calls + [instr("ret")]
+            elif placement == "before-def":
+                prog = head + calls + [instr("ret")] + defs
+            elif placement == "both":
+                prog = head + calls[:1] + defs + calls[1:] + [instr("sei")]
+            elif placement == "after-org":
+                prog = head + defs + [instr("nop"), org(0x20)] + calls + [instr("ret")]
+            else:
+                prog = head + defs + [instr("nop"), seg("data"), byte(2), seg("code")] + calls + [instr("ret")]
+            cases.append(Case(prog, tag="macro." + name))
+            # variants: a missing argument, an undefined macro
+            # (a parameter that only occurs in an unselected branch or in a condition reached while skipping is a corner
+            # the property does not settle: missing-argument variants are generated for bodies without conditionals)
+            if kinds and rep % 3 == 0 and not any(l["k"] in ("if", "elif") for l in body):
+                short = copy.deepcopy(prog)
+                for l in short:
+                    if l["k"] == "call" and l["n"] == name:
+                        l["args"] = l["args"][:-1]
+                cases.append(Case(short, tag="macro.missing-arg"))
+            if rep % 4 == 0:
+                und = [l for l in copy.deepcopy(prog)]
+                und.append(call("nosuchmacro", R(1)))
+                cases.append(Case(und, tag="macro.undefined"))
+    return run_cases(prop, tier, seed, cases, devices, keyf=default_key,
+                     rule="%d macro bodies (register, repeated, one operator of every precedence level on either side of the parameter, data, "
+                          "index forms, conditionals on parameters, nested calls with permuted parameters, bodies switching to the data and EEPROM "
+                          "segment) x seeded argument sets (registers, index forms, literals, a+b, (a+b), a*b, -a, a<<b|c, symbols) x placement "
+                          "(after / before the definition, both, after .org, after a segment round trip) x letter case of definition and call; "
+                          "plus missing-argument and undefined-macro variants" % len(bodies),
+                     assumptions=["labels inside bodies called twice, macros defined inside bodies, unbounded recursion are not generated"])
+
+
+CHECKS["C09"] = check_c09
